@@ -20,8 +20,9 @@ import zipfile
 from run import Broken, Violation
 from props import c03_bound as B
 from props import c03_carrier as K
+from props import c03_walk as W
 
-GEN = ["Units", "UnitsBound", "PyUnits", "UnitsCarrier"]
+GEN = ["Units", "UnitsBound", "PyUnits", "UnitsCarrier", "UnitsWalk"]
 RULE = ("type-directed random instances of the 17 *Content dataclasses (texts drawn from words x every Python "
         "whitespace / line-boundary character, heading styles, page breaks, anchors, arbitrary slide numbers) "
         "+ extraction results of every file under tests/resources + generated PPTX/EPUB zips, PPT record streams, "
@@ -1328,7 +1329,37 @@ RNS = "http://schemas.openxmlformats.org/officeDocument/2006/relationships"
 ODF_NS = ('xmlns:office="urn:oasis:names:tc:opendocument:xmlns:office:1.0" xmlns:text="urn:oasis:names:tc:opendocument:xmlns:text:1.0" '
           'xmlns:table="urn:oasis:names:tc:opendocument:xmlns:table:1.0" xmlns:draw="urn:oasis:names:tc:opendocument:xmlns:drawing:1.0" '
           'xmlns:presentation="urn:oasis:names:tc:opendocument:xmlns:presentation:1.0" xmlns:svg="urn:oasis:names:tc:opendocument:xmlns:svg-compatible:1.0" '
-          'xmlns:style="urn:oasis:names:tc:opendocument:xmlns:style:1.0"')
+          'xmlns:style="urn:oasis:names:tc:opendocument:xmlns:style:1.0" xmlns:xlink="http://www.w3.org/1999/xlink" '
+          'xmlns:form="urn:oasis:names:tc:opendocument:xmlns:form:1.0" xmlns:anim="urn:oasis:names:tc:opendocument:xmlns:animation:1.0"')
+
+# what an ordinary sheet / page of a real document carries besides its cells / shapes (none of it makes it less of a sheet / page):
+# kind -> {decoration name: (attributes of the sheet / page element, child elements in front of the content, child elements behind it)}
+DECO = {
+    "ods": {"linked": ("", '<table:table-source xlink:type="simple" xlink:href="other.ods" table:table-name="Sheet1" table:mode="copy-all" table:refresh-delay="PT0S"/>', ""),
+            "scenario": ("", '<table:scenario table:scenario-ranges="$A$1" table:is-active="true" table:border-color="#c0c0c0"/>', ""),
+            "forms": ("", '<office:forms form:automatic-focus="false" form:apply-design-mode="false"/>', ""),
+            "protected": (' table:protected="true" table:protection-key="x"', "", ""),
+            "noprint": (' table:print="false"', "", ""),
+            "ranges": (' table:print-ranges="$A$1:$A$1"', "", '<table:named-expressions/>'),
+            "title": ("", '<table:title>t</table:title><table:desc>d</table:desc>', ""),
+            "shapes": ("", '<table:shapes/>', ""),
+            "column": ("", '<table:table-column table:number-columns-repeated="3"/>', "")},
+    "odp": {"forms": ("", '<office:forms form:automatic-focus="false" form:apply-design-mode="false"/>', ""),
+            "anim": ("", "", '<anim:par presentation:node-type="timing-root"/>'),
+            "layout": (' presentation:presentation-page-layout-name="AL1T0" presentation:use-footer-name="f"', "", ""),
+            "nav": (' draw:nav-order="id1"', "", "")},
+    "xlsx": {"tabcolor": ("", '<sheetPr><tabColor rgb="FFFF0000"/></sheetPr>', ""),
+             "views": ("", '<sheetViews><sheetView workbookViewId="0"/></sheetViews><sheetFormatPr defaultRowHeight="15"/>', ""),
+             "protected": ("", "", '<sheetProtection sheet="1" objects="1" scenarios="1"/>'),
+             "filter": ("", "", '<autoFilter ref="A1:A1"/>'),
+             "setup": ("", '<sheetPr filterMode="1"><pageSetUpPr fitToPage="1"/></sheetPr>', '<pageMargins left="0.7" right="0.7" top="0.75" bottom="0.75" header="0.3" footer="0.3"/>')},
+}
+
+
+def _deco(kind, it):
+    """(attributes, children in front, children behind) of item `it`"""
+    parts = [DECO[kind][n] for n in it.get("deco", ()) if n in DECO[kind]]
+    return "".join(p[0] for p in parts), "".join(p[1] for p in parts), "".join(p[2] for p in parts)
 
 
 def build_xlsx(items):
@@ -1350,7 +1381,8 @@ def build_xlsx(items):
                    + "".join(f'<Relationship Id="rId{it["part"]}" Type="{RNS}/worksheet" Target="worksheets/sheet{it["part"]}.xml"/>' for it in by_part) + "</Relationships>")
         for it in by_part:
             cell = f'<row r="1"><c r="A1" t="inlineStr"><is><t xml:space="preserve">{_xml(it["text"])}</t></is></c></row>' if it["text"] else ""
-            z.writestr(f'xl/worksheets/sheet{it["part"]}.xml', f'<worksheet xmlns="http://schemas.openxmlformats.org/spreadsheetml/2006/main"><sheetData>{cell}</sheetData></worksheet>')
+            _, pre, post = _deco("xlsx", it)
+            z.writestr(f'xl/worksheets/sheet{it["part"]}.xml', f'<worksheet xmlns="http://schemas.openxmlformats.org/spreadsheetml/2006/main">{pre}<sheetData>{cell}</sheetData>{post}</worksheet>')
     b.seek(0)
     return b
 
@@ -1362,15 +1394,15 @@ def build_odf(kind, items):
         styles = ('<office:automatic-styles><style:style style:name="dpH" style:family="drawing-page"><style:drawing-page-properties '
                   'presentation:visibility="hidden"/></style:style></office:automatic-styles>')
         body = "".join(f'<draw:page draw:name="{_xml(it["name"])}" draw:id="id{it["id"]}" draw:master-page-name="Default"'
-                       + (' draw:style-name="dpH"' if it.get("hidden") else "") + ">"
+                       + (' draw:style-name="dpH"' if it.get("hidden") else "") + _deco("odp", it)[0] + ">" + _deco("odp", it)[1]
                        + (f'<draw:frame svg:x="1cm" svg:y="1cm" svg:width="5cm" svg:height="2cm"><draw:text-box><text:p>{_xml(it["text"])}</text:p></draw:text-box></draw:frame>' if it["text"] else "")
-                       + "</draw:page>" for it in items)
+                       + _deco("odp", it)[2] + "</draw:page>" for it in items)
     else:
         styles = ('<office:automatic-styles><style:style style:name="taH" style:family="table"><style:table-properties '
                   'table:display="false"/></style:style></office:automatic-styles>')
-        body = "".join(f'<table:table table:name="{_xml(it["name"])}"' + (' table:style-name="taH"' if it.get("hidden") else "")
-                       + '><table:table-row><table:table-cell office:value-type="string">'
-                       f'<text:p>{_xml(it["text"])}</text:p></table:table-cell></table:table-row></table:table>' for it in items)
+        body = "".join(f'<table:table table:name="{_xml(it["name"])}"' + (' table:style-name="taH"' if it.get("hidden") else "") + _deco("ods", it)[0]
+                       + '>' + _deco("ods", it)[1] + '<table:table-row><table:table-cell office:value-type="string">'
+                       f'<text:p>{_xml(it["text"])}</text:p></table:table-cell></table:table-row>' + _deco("ods", it)[2] + '</table:table>' for it in items)
     b = io.BytesIO()
     with zipfile.ZipFile(b, "w") as z:
         z.writestr(zipfile.ZipInfo("mimetype"), mt)
@@ -1395,7 +1427,25 @@ def gen_seq_doc(rng):
     items = [{"name": names[i], "id": ids[i], "part": parts[i], "text": rng.choice([f"TOK{i + 1}", f"TOK{i + 1}", f"TOK{i + 1}", ""]),
               # a hidden sheet / slide is still a sheet / slide of the document
               "hidden": rng.choice([None, None, None, "hidden", "veryHidden" if kind == "xlsx" else "hidden"])} for i in range(k)]
+    # some sheets / pages carry what real documents carry on ordinary sheets: a link to the file the sheet was inserted from,
+    # scenarios, forms, protection, print settings, tab colours, animations …
+    for it in items:
+        if rng.random() < 0.45:
+            it["deco"] = sorted(rng.sample(sorted(DECO[kind]), rng.randint(1, 2)))
     return {"kind": kind, "items": items}
+
+
+def deco_seq_docs():
+    """seed-independent: for every kind and EVERY decoration a three-part document whose middle part (and, second document, whose
+    first part) carries it — the decorated part keeps its unit, the parts behind it keep their numbers"""
+    out = []
+    for kind in ("xlsx", "ods", "odp"):
+        for name in sorted(DECO[kind]):
+            for pos in (1, 0):
+                items = [{"name": f"S{i + 1}", "id": i + 1, "part": i + 1, "text": f"TOK{i + 1}", "hidden": None} for i in range(3)]
+                items[pos]["deco"] = [name]
+                out.append({"kind": kind, "items": items})
+    return out
 
 
 def seq_doc_check(d):
@@ -1476,6 +1526,9 @@ def e2e_checks(rng, n):
                     out.append(("epub.units-do-not-mirror-spine", f"epub of 3 chapters, chapter {pos + 1} ends inside {tail!r}: units {us}, expected {want}", rep))
             except Exception as e:  # noqa: BLE001
                 out.append(("epub.raises", f"read_epub raised {type(e).__name__}", rep))
+    for d in deco_seq_docs():
+        for key, what in seq_doc_check(d):
+            out.append((key, what, {"seq_doc": d}))
     for _ in range(n):
         # PPTX: slide k carries TOKk only; presentation order is a permutation; a part may be missing
         m = rng.randint(0, 6)
@@ -1617,6 +1670,9 @@ def _oracle(ctx, seeds, budget):
         if "mbox_tok" in c:
             for key, what in B.mbox_tok_check(c["mbox_tok"]):
                 _viol(out, key, what, {"mbox_tok": B.shrink_mbox(c["mbox_tok"])})
+        if "walk" in c:
+            for key, what in W.check(c["walk"]):
+                _viol(out, key, what, {"walk": W.shrink(c["walk"])})
         if "carrier_doc" in c:
             K.reset_support()
             d = K.shrink(c["carrier_doc"])
@@ -1649,6 +1705,9 @@ def _oracle(ctx, seeds, budget):
             _viol(out, key, what, {"ppt_doc": {"list": lst, "cont": [], "raw": raw}})
     # real files
     for key, what, rep in e2e_checks(rng, budget):
+        _viol(out, key, what, rep)
+    # every walk, not only the first complete one: abandoned / suspended / interleaved walks, get_full_text in between, copies
+    for key, what, rep in W.e2e(rng, budget):
         _viol(out, key, what, rep)
     # composed slides: every carrier kind, several paragraphs, several carriers, slide-local relationship ids
     for key, what, rep in K.e2e(rng, budget * 4):
@@ -1778,6 +1837,8 @@ def replay(ctx, payload):
         msgs = [w for _, w in epub_case_check(rep["epub"])]
     elif "seq_doc" in rep:
         msgs = [w for _, w in seq_doc_check(rep["seq_doc"])]
+    elif "walk" in rep:
+        msgs = [w for _, w in W.check(rep["walk"])]
     elif "pdf" in rep:
         msgs = [w for _, w in B.pdf_check(rep["pdf"])]
     elif "mbox_tok" in rep:
